@@ -976,6 +976,69 @@ fn rewrite_comment_inner(
     Ok(rewriter.finish())
 }
 
+#[cfg(feature = "verif-hooks")]
+pub(crate) mod verif_wrap {
+    use super::*;
+
+    /// One letter per `CommentStyle`; a custom style also gives its opener.
+    pub(crate) fn style_letter(style: CommentStyle<'_>) -> (char, String) {
+        match style {
+            CommentStyle::DoubleSlash => ('d', String::new()),
+            CommentStyle::TripleSlash => ('t', String::new()),
+            CommentStyle::Doc => ('o', String::new()),
+            CommentStyle::SingleBullet => ('s', String::new()),
+            CommentStyle::DoubleBullet => ('b', String::new()),
+            CommentStyle::Exclamation => ('e', String::new()),
+            CommentStyle::Custom(opener) => ('c', opener.to_owned()),
+        }
+    }
+
+    /// `rewrite_comment_inner` with the style `identify_comment` passes:
+    /// `comment_style(orig, false)`.
+    pub(crate) fn rewrite_comment_inner_plain(
+        orig: &str,
+        block_style: bool,
+        shape: Shape,
+        config: &Config,
+        is_doc_comment: bool,
+    ) -> Option<String> {
+        let style = comment_style(orig, false);
+        rewrite_comment_inner(orig, block_style, style, shape, config, is_doc_comment).ok()
+    }
+
+    /// `left_trim_comment_line` under `comment_style(style_of, false)`.
+    pub(crate) fn left_trim_comment_line_plain(line: &str, style_of: &str) -> (String, bool) {
+        let style = comment_style(style_of, false);
+        let (l, b) = left_trim_comment_line(line, &style);
+        (l.to_owned(), b)
+    }
+
+    /// `has_url`
+    pub(crate) fn has_url_plain(s: &str) -> bool {
+        has_url(s)
+    }
+
+    /// `is_table_item`
+    pub(crate) fn is_table_item_plain(s: &str) -> bool {
+        is_table_item(s)
+    }
+
+    /// `trim_end_unless_two_whitespaces`
+    pub(crate) fn trim_end_unless_two_whitespaces_plain(s: &str, is_doc_comment: bool) -> String {
+        trim_end_unless_two_whitespaces(s, is_doc_comment).to_owned()
+    }
+
+    /// `ItemizedBlock::get_marker_length`
+    pub(crate) fn marker_length(trimmed: &str) -> Option<usize> {
+        ItemizedBlock::get_marker_length(trimmed)
+    }
+
+    /// `CommentRewrite::join_block`
+    pub(crate) fn join_block(s: &str, sep: &str) -> String {
+        CommentRewrite::join_block(s, sep)
+    }
+}
+
 const RUSTFMT_CUSTOM_COMMENT_PREFIX: &str = "//#### ";
 
 fn hide_sharp_behind_comment(s: &str) -> Cow<'_, str> {
